@@ -193,6 +193,7 @@ def run(ctx):
     for name in ("asf_tie", "iff_tie", "dsf_tie", "ogginject_tie"):
         importlib.import_module(name).run_faults(ctx)
     importlib.import_module("mp4file_tie").run_faults(ctx, want=("io", "short"))
+    importlib.import_module("id3file_tie").run_faults(ctx, want=("io", "short"))
 
 def search(ctx):
     old = ctx.tier; ctx.tier = "thorough"
